@@ -909,24 +909,21 @@ func (w *World) constantConversions(P string, f *Facts, r *Roles) {
 		for ar, impl := range b.Fns {
 			ok := false
 			detail := "no success return"
-			allInstrs(impl, func(in ssa.Instruction) {
-				ret, isRet := in.(*ssa.Return)
-				if !isRet || len(ret.Results) != 2 || !isNilConst(ret.Results[1]) {
-					return
-				}
-				v := stripConvAll(ret.Results[0])
+			for _, sr := range successReturns(impl, "exec") {
+				v := stripConvAll(sr.Val)
 				neg := false
 				if u, isU := v.(*ssa.UnOp); isU && u.Op == token.NOT {
 					neg = true
-					v = u.X
+					v = stripConvAll(u.X)
 				}
 				recv, isM := isMethodCall(v, meth)
 				if !isM {
 					detail = "returns " + describe(v) + ", not " + meth + "() of the argument"
-					return
+					continue
 				}
-				fromArgs := sliceContains(recv, func(x ssa.Value) bool { return len(impl.Params) >= 2 && x == ssa.Value(impl.Params[1]) })
-				_, fromCtx := isMethodCall(recv, "Result")
+				recv = sr.resolve(recv)
+				fromArgs := sr.contains(recv, func(x ssa.Value) bool { return len(impl.Params) >= 2 && x == ssa.Value(impl.Params[1]) })
+				fromCtx := sr.contains(recv, func(x ssa.Value) bool { _, isR := isMethodCall(x, "Result"); return isR })
 				src := "?"
 				if fromArgs {
 					src = "argument"
@@ -939,7 +936,7 @@ func (w *World) constantConversions(P string, f *Facts, r *Roles) {
 				}
 				ok = neg == negate && src == wantSrc
 				detail = fmt.Sprintf("returns %s%s() of the %s", map[bool]string{true: "!", false: ""}[neg], meth, src)
-			})
+			}
 			w.check(P, "R04.6", fmt.Sprintf("builtin %s/%d", bname, ar), impl.Pos(), ok, detail)
 		}
 	}
